@@ -8,6 +8,7 @@ import (
 	"io"
 	"io/fs"
 	"math/rand/v2"
+	"os"
 	"sort"
 	"strings"
 	"testing"
@@ -68,8 +69,8 @@ func restoreTo(st *Stack, from string) ([]byte, error) {
 func init() {
 	Register(&Check{
 		ID: "C03", Level: "exploration", Tech: "deterministic simulation over the configuration matrix: real pipeline end to end with simulated short-read sources, both write caches, restart (reopen) before reading, simulated clock for signature times",
-		Rule:      "cell = (compression x level x encryption x signature x record size x write cache) drawn per run from the full 8x3x3x3x7x2 matrix; per cell 3 contents from size classes {0,1,511,512,513,record-1,record,record+1,several records} x {zeros,text,random}; written through the filesystem (write cache) and through a batched Operations.Archive with short-read sources, one content replaced by an update; after a reopen every content is read back through File.Read, Operations.Restore and recovery.Fetch by position and Stat.Size must equal the length; in half of the runs every non-empty content is read again through File.Read and Operations.Restore with one injected drive read error at a seeded position (a read may fail, it never ends cleanly with other bytes); plus non-regular (tape) codec parameters at the compression/tar-writer level; non-trivial = a non-plain cell with at least one non-empty content; distinct by cell",
-		QuickRuns: 800, QuickSecs: 70, ThoroughRuns: 12000, ThoroughSecs: 1700,
+		Rule:      "cell = (compression x level x encryption x signature x record size x write cache) drawn per run from the full 8x3x3x3x7x2 matrix; per cell 3 contents from size classes {0,1,511,512,513,record-1,record,record+1,several records} x {zeros,text,random}; written through the filesystem (write cache) and through a batched Operations.Archive with short-read sources, one content replaced by an update, optionally one more replaced by the EMPTY content through the write buffer (O_TRUNC reopen, Truncate(0), empty Write); after a reopen every content is read back through File.Read, Operations.Restore and recovery.Fetch by position and Stat.Size must equal the length; in half of the runs every non-empty content is read again through File.Read and Operations.Restore with one injected drive read error at a seeded position (a read may fail, it never ends cleanly with other bytes); plus non-regular (tape) codec parameters at the compression/tar-writer level; non-trivial = a non-plain cell with at least one non-empty content; distinct by cell",
+		QuickRuns: 1600, QuickSecs: 70, ThoroughRuns: 12000, ThoroughSecs: 1700,
 		Assumptions: []string{"the tape drive itself is not simulated: DriveIsRegular=false is exercised only at the codec / tar-writer parameter level", "configuration x input sampling riding on the simulator for clock, randomness, short reads, restart and crash supervision"},
 		Gen: func(r *rand.Rand, tier string, relax Relax) *Case {
 			c := &Case{Cfg: GenConfig(r, 0.03), P: map[string]int64{}, S: map[string]string{}}
@@ -78,6 +79,7 @@ func init() {
 			if r.Float64() < 0.5 {
 				c.P["rfault"] = int64(1 + r.IntN(1000))
 			}
+			c.P["emptyvia"] = int64(r.IntN(6)) // 1..3: one content is replaced by the empty content through the write buffer
 			for i, d := range contentClasses(r, c.Cfg.RecordSize) {
 				c.Ops = append(c.Ops, Op{K: "content", P: fmt.Sprintf("/f%d", i), D: d})
 			}
@@ -136,6 +138,30 @@ func evalC03(t *testing.T, c *Case, st *Stats, relax Relax) *Violation {
 			return mk("rewrite-fails", r.Err)
 		}
 		want["/f1"] = nd.Bytes()
+		// 3b. empty content that goes through the write buffer (an update record whose encoded
+		// stream is not empty although the content is): O_TRUNC reopen, Truncate(0), empty Write
+		switch c.Param("emptyvia", 0) {
+		case 1:
+			x.Ex.Do(Op{K: "openfile", P: "/f2", H: 71, F: os.O_WRONLY | os.O_TRUNC, M: 0o644})
+			if r := x.Ex.Do(Op{K: "h.close", H: 71}); r.Class != "ok" {
+				return mk("rewrite-fails", "O_TRUNC reopen + close: "+r.Err)
+			}
+			want["/f2"] = nil
+		case 2:
+			x.Ex.Do(Op{K: "openfile", P: "/f0", H: 72, F: os.O_RDWR, M: 0o644})
+			x.Ex.Do(Op{K: "h.truncate", H: 72, O: 0})
+			if r := x.Ex.Do(Op{K: "h.close", H: 72}); r.Class != "ok" {
+				return mk("rewrite-fails", "Truncate(0) + close: "+r.Err)
+			}
+			want["/f0"] = nil
+		case 3:
+			x.Ex.Do(Op{K: "create", P: "/f2", H: 73})
+			x.Ex.Do(Op{K: "h.write", H: 73, D: &Data{Len: 0, Kind: "zeros"}})
+			if r := x.Ex.Do(Op{K: "h.close", H: 73}); r.Class != "ok" {
+				return mk("rewrite-fails", "Create + empty Write + close: "+r.Err)
+			}
+			want["/f2"] = nil
+		}
 		// 4. restart, then read everything back three ways
 		x.St.Close()
 		stk, err := x.W.Open(OpenOpts{})
